@@ -111,26 +111,35 @@ Print Assumptions C01_thickness_last_write_wins.
 Theorem C01_set_radius_exact :
   forall O : Ops, forall (l : lens O) (v : T O) (k : Z) (l' : lens O),
        set_radius l v k = Some l' ->
-       edits_only l l' k
-         (fun s : surf O =>
-          match s_kind s with
-          | GPlane => with_geom s GStd v (Some (conic_read s)) (s_c s)
-          | GStd => with_geom s GStd v (s_k s) (s_c s)
-          | GEven => with_geom s GEven v (s_k s) (s_c s)
-          | GOther => with_geom s GOther v (s_k s) (s_c s)
-          end) /\
+       edits_only l l' k (set_radius_fun v) /\
        (forall s : surf O,
         nth_error (surfs l) (Z.to_nat k) = Some s ->
-        s_kind s <> GPlane ->
-        nth_error (surfs l') (Z.to_nat k) = Some (with_geom s (s_kind s) v (s_k s) (s_c s))).
+        isinf_ v = false ->
+        exists s' : surf O,
+          nth_error (surfs l') (Z.to_nat k) = Some s' /\
+          s_R s' = v /\ s_c s' = s_c s /\ conic_read s' = conic_read s).
 Proof. exact (@set_radius_exact). Qed.
 Print Assumptions C01_set_radius_exact.
 
-Theorem C01_set_radius_keeps_conic :
+Theorem C01_set_radius_frame :
   forall O : Ops, forall (l : lens O) (v : T O) (k : Z) (l' : lens O),
        set_radius l v k = Some l' ->
+       positions l' = positions l /\
+       n_post l' = n_post l /\
+       n_pre l' = n_pre l /\
+       map s_stop (surfs l') = map s_stop (surfs l) /\
+       map s_x (surfs l') = map s_x (surfs l) /\
+       map s_y (surfs l') = map s_y (surfs l) /\
+       map s_rx (surfs l') = map s_rx (surfs l) /\ map s_ry (surfs l') = map s_ry (surfs l).
+Proof. exact (@set_radius_frame). Qed.
+Print Assumptions C01_set_radius_frame.
+
+Theorem C01_set_radius_keeps_conic :
+  forall O : Ops, forall (l : lens O) (v : T O) (k : Z) (l' : lens O),
+       isinf_ v = false ->
+       set_radius l v k = Some l' ->
        map conic_read (surfs l') = map conic_read (surfs l) /\
-       map s_c (surfs l') = map s_c (surfs l) /\ positions l' = positions l /\ n_post l' = n_post l.
+       map s_c (surfs l') = map s_c (surfs l).
 Proof. exact (@set_radius_keeps_conic). Qed.
 Print Assumptions C01_set_radius_keeps_conic.
 
